@@ -186,7 +186,7 @@ def _tam_cases(draw):
     ts = draw(st.lists(st.one_of(st.sampled_from([0.0, 0.25, 0.5, 1.0, 1 / 3, -0.2, 1.7]),
                                  st.floats(min_value=0, max_value=1)), min_size=T, max_size=T))
     return dict(s=s, sc=sc, ec=ec, pk=pk, points=points, t=ts, scalar=scalar,
-                metric=draw(st.sampled_from(METRICS)),
+                metric=draw(st.sampled_from(METRICS)), callable_kind=draw(st.sampled_from(gen.CALLABLE_KINDS)),
                 then_shift=draw(st.sampled_from([0, 0, 1, -2, 3])))
 
 
@@ -225,7 +225,9 @@ def _tam_compare(case, o, pos, neg, tag):
     degenerate = (pk == "none" and len(allv) < 2) or (pk == "int" and (not allv or allv[0] >= allv[-1]))
     ctx = f"{tag}metric={case['metric']} points={case['points']} config={case['sc']}/{case['ec']} pos={s['pos']} neg={s['neg']}"
     try:
-        got = o.threshold_at_metric(t_in, metric, pts_arg)
+        # a callable metric may come in any of Python's callable shapes
+        metric_arg = metric if isinstance(metric, str) else gen.wrap_callable(metric, case.get("callable_kind", "function"))
+        got = o.threshold_at_metric(t_in, metric_arg, pts_arg)
     except ValueError:
         require(degenerate, "tam:rejected-valid", f"{ctx}: ValueError")
         return dict(nontrivial=False, labels=["rejected<2values"])
@@ -256,6 +258,8 @@ def _tam_compare(case, o, pos, neg, tag):
     # and the inversion itself returns true solutions of the interpolant through (P, Y)
     stats = check_solutions(P.tolist(), Y.tolist(), list(case["t"]), got_l, ctx)
     labels = [f"points:{pk}", f"metric:{case['metric']}", f"mode:{s['mode']}"] + [k for k, v in stats.items() if v]
+    if not isinstance(metric, str):
+        labels.append(f"callable:{case.get('callable_kind', 'function')}")
     return dict(nontrivial=any(stats.values()), labels=labels)
 
 
@@ -330,4 +334,4 @@ PROP = Prop(
     ],
 )
 
-RULE_EXTRA = ('integer score dtype; interior touches/runs completeness; re-assigned score arrays on the object; clause large_inputs with 6e6-1.2e7 (sample, target) pairs.')
+RULE_EXTRA = ('callable metrics as function / lambda / partial / bound method / callable object / dataclass instance; integer score dtype; interior touches/runs completeness; re-assigned score arrays on the object; clause large_inputs with 6e6-1.2e7 (sample, target) pairs.')
